@@ -423,6 +423,75 @@ pub fn gen_weak_program(rng: &mut Rng, _thorough: bool) -> Prog {
     Prog { g0: rng.below(20) as usize, ncells: 0, nobj: 1, threads }
 }
 
+/// structured programs around AtomicRc::compare_exchange / swap on a root cell (both public CAS variants are
+/// exercised: the harness alternates): successful and failing exchanges, the returned previous owner and the
+/// `current` snapshot of a failure are used afterwards, a second thread loads / counts / exchanges concurrently.
+pub fn gen_cas_program(rng: &mut Rng, _thorough: bool) -> Prog {
+    let mut t0: Vec<Vec<i64>> = vec![];
+    t0.push(vec![0, 0]); // a
+    t0.push(vec![0, 1]); // b
+    t0.push(vec![20]);
+    t0.push(vec![31, 0, 0, 0, 0]); // cell0 := a
+    let rounds = 1 + rng.below(3);
+    for _ in 0..rounds {
+        t0.push(vec![30, 0, 0, 0, 2]); // slot2 := snapshot(cell0)
+        if rng.chance(1, 3) {
+            // make the expected value stale: somebody (we) swap first
+            t0.push(vec![0, 4]);
+            t0.push(vec![32, 0, 0, 0, 4, 4]); // swap: previous content comes back into slot 4
+            t0.push(vec![7, 4]);
+        }
+        t0.push(vec![33, 0, 0, 0, 2, 1, 3]); // CAS(cell0, expected = slot2, desired = slot1) -> slot3
+        // success: slot3 = Rc(previous), slot1 empty; failure: slot3 = Snapshot(current), slot1 keeps its Rc
+        t0.push(vec![15, 3, 5]); // counted (only if slot3 is a snapshot)
+        t0.push(vec![7, 5]);
+        t0.push(vec![7, 3]); // drop the previous owner (only if slot3 is an Rc)
+        t0.push(vec![21]);
+        t0.push(vec![20]);
+        t0.push(vec![7, 1]);
+        t0.push(vec![0, 1]); // a fresh desired value for the next round
+        t0.push(vec![30, 0, 0, 0, 6]);
+        t0.push(vec![21]);
+        t0.push(vec![20]);
+    }
+    t0.push(vec![21]);
+    t0.push(vec![7, 1]);
+    // empty the cell
+    t0.push(vec![20]);
+    t0.push(vec![24, 7]);
+    t0.push(vec![32, 0, 0, 0, 7, 7]);
+    t0.push(vec![21]);
+    t0.push(vec![7, 7]);
+    t0.push(vec![25, 4]);
+    let mut threads = vec![(vec![], t0)];
+    let nt = 1 + rng.below(2) as usize;
+    for _ in 0..nt {
+        let mut ops: Vec<Vec<i64>> = vec![];
+        for _ in 0..(1 + rng.below(3)) {
+            ops.push(vec![20]);
+            ops.push(vec![30, 0, 0, 0, 0]);
+            match rng.below(3) {
+                0 => {
+                    ops.push(vec![15, 0, 1]);
+                    ops.push(vec![21]);
+                    ops.push(vec![7, 1]);
+                }
+                1 => {
+                    ops.push(vec![0, 1]);
+                    ops.push(vec![33, 0, 0, 0, 0, 1, 2]);
+                    ops.push(vec![7, 2]);
+                    ops.push(vec![21]);
+                    ops.push(vec![7, 1]);
+                }
+                _ => ops.push(vec![21]),
+            }
+            ops.push(vec![25, 1 + rng.below(2) as i64]);
+        }
+        threads.push((vec![], ops));
+    }
+    Prog { g0: rng.below(20) as usize, ncells: 1, nobj: 0, threads }
+}
+
 /// structured programs around the bulk constructors (C10): new_many / new_many_iter with a prefix consumed, then
 /// abort (inside a critical section) or drop of the iterator, weak_many, and release of the owners in random order,
 /// with collection rounds in between and a second thread doing rounds.
@@ -1376,7 +1445,15 @@ fn run_op(_tid: usize, op: &[i64], slots: &mut Vec<Slot>, guards: &mut Vec<Guard
             if let (Some(c), true, Some(exp), true) = (c, !guards.is_empty(), exp, okk) {
                 if let Slot::Rc(des) = take(slots, src) {
                     let g: &'static Guard = unsafe { &*(guards.last().unwrap() as *const Guard) };
-                    match unsafe { (*c).compare_exchange(exp, des, SeqCst, SeqCst, g) } {
+                    // the two public variants share their protocol (no spurious failure on this target): alternate
+                    static WHICH: AtomicUsize = AtomicUsize::new(0);
+                    let weak_variant = WHICH.fetch_add(1, Ordering::Relaxed) % 2 == 1;
+                    let r = if weak_variant {
+                        unsafe { (*c).compare_exchange_weak(exp, des, SeqCst, SeqCst, g) }
+                    } else {
+                        unsafe { (*c).compare_exchange(exp, des, SeqCst, SeqCst, g) }
+                    };
+                    match r {
                         Ok(old) => {
                             sched::obs(2002, vs::rc_word(&old), 0);
                             slots[d] = Slot::Rc(old);
@@ -1436,6 +1513,13 @@ pub fn corpus_triggered() -> Vec<(&'static str, Prog, Trigger, usize)> {
         };
         let steps = if weak_snapshot { 6 } else { 3 };
         out.push((name, Prog { g0: 4, ncells: 0, nobj: 2, threads: vec![t0, t1] }, Trigger { watch: 0, site: 115, nth: 2, other: 1, steps }, 64));
+    }
+    // an upgrade lands between try_destruct's load of the count word (site 113) and its CAS (site 114): the retry
+    // must look at the count again (C01 / C05; the token protocol of finding D6)
+    for (name, steps) in [("d6_upgrade_between_td_load_and_cas", 3usize), ("d6_upgrade_completed_between_td_load_and_cas", 4)] {
+        let t0 = (vec![(1u8, 1usize)], vec![vec![7, 0], vec![25, 6], vec![25, 6], vec![25, 6]]);
+        let t1 = (vec![(2u8, 1usize)], vec![vec![13, 0, 1], vec![25, 0], vec![7, 1], vec![12, 0], vec![25, 4]]);
+        out.push((name, Prog { g0: 3, ncells: 0, nobj: 1, threads: vec![t0, t1] }, Trigger { watch: 0, site: 113, nth: 1, other: 1, steps }, 64));
     }
     // a child C with two owners: an old, already dropped parent P (destruction pending) and root cell 0.  A reader
     // pins after P was dropped, loads C from the cell; C is then unlinked from the cell (a NON-final decrement,
